@@ -35,11 +35,18 @@ RULE = ("labels: random number trees (leaf-only, balanced, degenerate chains, co
         "keys, str names against the PDF-1.1 Dests dictionary); text: random strings in both encodings incl. surrogate "
         "pairs, every PDFDocEncoding byte; every labels / outline / names case is also observed repeatedly on ONE "
         "PDFDocument (second pass, interleaved generators, reverse order), with nested page trees, page selection, "
-        "indirect scalar values and caching=False; formatters: roman exhaustively 1..3999 and sampled up to 200000, alpha 1..N.  A case is non-trivial "
-        "when it is a distinct input with >= 2 ranges / >= 2 outline items / a tree with Kids / a non-ASCII string.")
+        "indirect scalar values and caching=False; formatters: roman exhaustively 1..3999 and sampled up to 200000, alpha 1..N; "
+        "_format_page_label directly on random (style, value) incl. unknown styles; get_dest soundness (a returned value is associated "
+        "with the key) is judged on non-conforming name trees too.  A case is non-trivial when it is a distinct input with >= 2 ranges / >= 2 outline items / a tree with Kids / a non-ASCII string.")
 TRUSTED_BASE = [
-    "tools/translate/gen_c17.py (Python ast -> Lean) for ROMAN_ONES, ROMAN_FIVES, PDFDocEncoding - each translated "
-    "table is also run against the Python original (roman exhaustively, all 256 bytes)",
+    "tools/translate/gen_c17.py (Python ast -> Lean) for ROMAN_ONES, ROMAN_FIVES, PDFDocEncoding and, since round 6, the "
+    "straight-line code of format_int_roman / format_int_alpha (assert, prologue, while test, loop body, epilogue), the "
+    "if/elif chain of PageLabels._format_page_label and the St/P defaults, range_length and range(...) of PageLabels.labels "
+    "(Gen/LabelCode.lean) - everything translated is run against the Python original (gen.roman exhaustively 1..3999 and "
+    "sampled to 200000, gen.alpha, gen.label against the static method, all 256 bytes) and proved equal to the hand models",
+    "lean/PdfVerif/Model/LabelsPy.lean: the reading of the Python primitives the translated code is written in (list/str "
+    "indexing with negative indices and IndexError, list.insert clipping, str * int) and the hand-written `while` glue of "
+    "Model/LabelsGen.lean (pass budget)",
     "hand models lean/PdfVerif/Model/Labels.lean (NumberTree._parse/values incl. settings.STRICT, PageLabels.labels, "
     "_format_page_label, format_int_roman/alpha, decode_text), Model/Outline.lean (get_outlines.search on unfolded "
     "entries), Model/OutlineGraph.lean (the same walk on an object graph with the visited set), Model/NameTree.lean "
